@@ -241,7 +241,7 @@ theorem find_spec (t : Table) (n : Nat) (hr : t.Rect n) (key : String) (col : Li
     t.find key Option.none conds =
       match ((List.range n).filter (t.sat conds)).map fun i => col.getD i .none with
       | [] => .error .value
-      | x :: rest => if rest.all (x.pyEq ·) then .ok x else .error .value := by
+      | x :: rest => if rest.all (x.valEq ·) then .ok x else .error .value := by
   have hne : t ≠ [] := by intro he; subst he; simp [col?] at hcol
   have hh : t.has key = true := (has_iff_col? t key).2 ⟨col, hcol⟩
   simp only [find, hh, Bool.not_true, Bool.false_eq_true, if_false, inc_filter t n hr conds hk,
@@ -257,14 +257,14 @@ theorem find_unique (t : Table) (n : Nat) (hr : t.Rect n) (key : String) (col : 
     (v : Cell) :
     (t.find key Option.none conds = .ok v ↔
       ∃ rest, (((List.range n).filter (t.sat conds)).map fun i => col.getD i .none) = v :: rest ∧
-        ∀ x ∈ rest, v.pyEq x = true) ∧
+        ∀ x ∈ rest, v.valEq x = true) ∧
     (∀ e, t.find key Option.none conds = .error e → e = .value) := by
   rw [find_spec t n hr key col hcol conds hk]
   cases ((List.range n).filter (t.sat conds)).map fun i => col.getD i .none with
   | nil => simp
   | cons x rest =>
     simp only
-    by_cases hall : rest.all (x.pyEq ·) = true
+    by_cases hall : rest.all (x.valEq ·) = true
     · simp only [hall, if_true, Except.ok.injEq, List.cons.injEq]
       constructor
       · constructor
@@ -286,12 +286,12 @@ theorem find_unique (t : Table) (n : Nat) (hr : t.Rect n) (key : String) (col : 
 def tbl : Table := [("a", [.int 1, .none, .flt 4, .nan, .str "x1"]), ("b", [.str "x", .str "y", .none, .str "xy", .int 2])]
 
 example : tbl.Rect 5 ∧ tbl ≠ [] ∧ tbl.has "a" = true ∧ tbl.has "b" = true := by decide
-example : tbl.sat [("a", .oneOf [.int 1]), ("b", .regex "x")] 0 = true := by decide
+example : tbl.sat [("a", .oneOf [.int 1]), ("b", .regex (RePat.lit "x").search)] 0 = true := by decide
 /-- `1 == 1.0`: the int 1 and the float 1.0 (`flt 4`) both match -/
 example : tbl.inc Option.none [("a", .oneOf [.int 1])] = .ok [("a", [.int 1, .flt 4]), ("b", [.str "x", .none])] := by rfl
 example : tbl.exc Option.none [("a", .oneOf [.int 1])] =
     .ok [("a", [.none, .nan, .str "x1"]), ("b", [.str "y", .str "xy", .int 2])] := by rfl
-example : tbl.inc Option.none [("a", .isNaN), ("b", .regex "y")] = .ok [("a", [.nan]), ("b", [.str "xy"])] := by rfl
+example : tbl.inc Option.none [("a", .isNaN), ("b", .regex (RePat.lit "y").search)] = .ok [("a", [.nan]), ("b", [.str "xy"])] := by rfl
 example : tbl.inc Option.none [("a", .oneOf [])] = .ok [("a", []), ("b", [])] := by rfl
 example : tbl.find "b" Option.none [("a", .isNone)] = .ok (.str "y") := by rfl
 example : tbl.find "b" Option.none [("a", .oneOf [.int 1])] = .error .value := by rfl
